@@ -569,6 +569,7 @@ func (a *jwtAuthenticator) verifyTokenWithKey(
 func (a *jwtAuthenticator) calculateCacheKey(ep *endpoint.Endpoint, renderedURL, reference string) string {
 	digest := sha256.New()
 	hashx.WriteBytes(digest, ep.Hash())
+	hashx.WriteString(digest, a.id)
 	hashx.WriteString(digest, renderedURL)
 	hashx.WriteString(digest, reference)
 
